@@ -60,12 +60,42 @@ async fn main() {
                 let _ = run(&mut shell, &f[3]).await;
                 done += 1;
             }
-            // give finished children a moment to be reaped by the runtime
+            // give finished children a moment to be reaped by the runtime; asynchronous children (process
+            // substitutions) may still be running: wait — up to 3 s — until the descriptor and zombie counts are
+            // back at the first sample's or have stopped moving (a genuine leak stays, however long one waits)
             tokio::time::sleep(std::time::Duration::from_millis(5)).await;
+            let base_fd: Option<usize> = fd.first().and_then(|s: &String| s.parse().ok());
+            let mut last = (fd_count(), zombies());
+            let mut stable = 0;
+            if base_fd.is_none() {
+                // first sample: take it when three readings 20 ms apart agree (at most 1 s)
+                let mut same = 0;
+                for _ in 0..50 {
+                    tokio::time::sleep(std::time::Duration::from_millis(20)).await;
+                    let now = (fd_count(), zombies());
+                    same = if now == last { same + 1 } else { 0 };
+                    last = now;
+                    if same >= 3 {
+                        break;
+                    }
+                }
+            }
+            for _ in 0..60 {
+                if base_fd.is_none_or(|b| last.0 <= b) && last.1 == 0 {
+                    break;
+                }
+                tokio::time::sleep(std::time::Duration::from_millis(50)).await;
+                let now = (fd_count(), zombies());
+                stable = if now == last { stable + 1 } else { 0 };
+                last = now;
+                if stable >= 8 {
+                    break;
+                }
+            }
             sc.push(scopes(&shell).to_string());
             ca.push(shell.call_stack().depth().to_string());
-            fd.push(fd_count().to_string());
-            zo.push(zombies().to_string());
+            fd.push(last.0.to_string());
+            zo.push(last.1.to_string());
         }
         println!("scopes={} calls={} fds={} zombies={}", sc.join(","), ca.join(","), fd.join(","), zo.join(","));
     }
